@@ -217,6 +217,17 @@ def edge_of_command(line):
 
 
 def case(root, g, ops, tool, sel, state_kind):
+    if state_kind == 'dirty_straydf':
+        # the graph gets, where it has none, a response-file statement (made unstartable below) and a statement with a
+        # plain `depfile` whose files stay on disk: what a dry run that gives up half-way could wrongly "clean up"
+        import copy
+        g = copy.deepcopy(g)
+        plain = [e for e in g['edges'] if not e['phony'] and not e.get('bare') and not e['generator'] and not e.get('dd') and not e.get('is_dd_producer')]
+        if plain and not any(e.get('rsp') is not None for e in g['edges']):
+            [e for e in plain if e['deps'] != 'msvc' or True][-1]['rsp'] = 'r0'
+        free = [e for e in plain if e.get('rsp') is None and not e['deps']]
+        if free and not any(e['deps'] in ('depfile', 'gcc') and e.get('rsp') is None for e in g['edges']):
+            free[0].update(deps='depfile', hidden=[], depfile_layout=0, spell=0)
     sim = e2e.RealSim(root, g)
     labels = set()
     try:
@@ -238,7 +249,7 @@ def case(root, g, ops, tool, sel, state_kind):
             if any(sim.unordered_hidden(e) for e in sim.cmd_edges()):
                 return None, labels
         if state_kind in ('dirty', 'dirty_straydf'):
-            for s in sim.g['srcs'][:2]:
+            for s in (sim.g['srcs'] if state_kind == 'dirty_straydf' else sim.g['srcs'][:2]):
                 if not s.startswith('ddsrc'):
                     sim.write(s, sim.new_content(s, 5))
         if state_kind == 'dirty_straydf':
